@@ -45,7 +45,10 @@ struct Stmt {
 	long long lit = 0; int y = 0; int op = 0;
 	Expr e2;               // ST_MEMW: data (e = address)
 };
-struct Program { std::vector<Ty> ins; std::vector<Stmt> stmts; bool aliasPattern = false; bool intPattern = false; bool enPattern = false; };
+struct Program { std::vector<Ty> ins; std::vector<Stmt> stmts; bool aliasPattern = false; bool intPattern = false; bool enPattern = false;
+                 bool chainPattern = false;   // pattern seed: else-chains around complete nested IF/ELSE statements
+                 bool useMacros = false;      // executed through the real IF / ELSE / ELSEIF macros of ConditionalScope.h (otherwise through hand-expanded scope objects)
+};
 
 static void printPath(std::ostream &o, const std::vector<Sel> &p) {
 	o << p.size();
@@ -151,6 +154,7 @@ struct Gen {
 	std::vector<IVarInfo> ivars;
 	char levelKind[64] = {0};    // per nesting level: 'c' conditional scope (IF / ELSE…), 'e' enable scope (ENIF: does not make assignments conditional)
 	bool condBetween(int from, int to) { for (int l = from + 1; l <= to && l < 64; l++) if (levelKind[l] == 'c') return true; return false; }
+	bool chainPending = false;   // pattern seed: ELSE / ELSEIF chains (1..4 arms, with / without ELSE) around complete nested IF/ELSE statements, IF right after a closed chain
 	bool enPending = false, enProgram = false;   // pattern seed: nests of ENIF / IF scopes (depth 1..4, any order) around reg() and memory writes
 	bool intPending = false;     // pattern seed still to be emitted: variables initialised from integer literals / ext(), re-assigned wider / narrower / equal literals
 	bool aliasPending = false;   // pattern seed still to be emitted: dynamic selections on one vector that share index variable / width / option count
@@ -251,6 +255,49 @@ struct Gen {
 	}
 	Ty genTy() { if (rng.chance(2, 5)) return Ty{}; static const std::vector<int> ws = {1, 2, 3, 4, 4, 5, 6, 8}; return Ty{false, rng.pick(ws)}; }
 
+
+	// ---- pattern seed: else-chains and the "last condition" bookkeeping -------------------------------------------------------------
+	// ELSE / ELSEIF take the condition of the matching IF from the thread-local m_lastCondition, which every closing scope overwrites:
+	// an ELSE after an IF whose body contained complete nested IF/ELSE statements, ELSEIF chains of length 1..4 with and without a final
+	// ELSE, an IF directly after a closed IF/ELSE (its successor must not bind to the earlier chain), all of it also inside ENIF.
+	void genScopeBody(std::vector<Stmt> &body, bool nested) {
+		depth++; if (depth < 64) levelKind[depth] = 'c';
+		size_t nvars = vars.size(), nivars = ivars.size();
+		if (rng.chance(1, 2) && budget > 0) genBlock(body, 1);
+		if (nested && depth < 7) {          // a complete IF / ELSE (or IF / ELSEIF / ELSE) statement inside
+			Stmt f; f.k = ST_IF; f.e = genCond(nullptr); genScopeBody(f.body, rng.chance(1, 4)); body.push_back(f); budget--;
+			if (rng.chance(1, 3)) { Stmt e; e.k = rng.chance(1, 2) ? ST_ELSEIF : ST_ELSEIF2; e.e = genCond(&f.e); genScopeBody(e.body, false); body.push_back(e); budget--; }
+			if (rng.chance(3, 4)) { Stmt e; e.k = ST_ELSE; genScopeBody(e.body, false); body.push_back(e); budget--; }
+			if (rng.chance(1, 3)) { Stmt g; g.k = ST_IF; g.e = genCond(nullptr); genScopeBody(g.body, false); body.push_back(g); budget--; }   // and a lone IF after it
+		}
+		if (body.empty() || rng.chance(1, 2)) { int b = budget; budget = std::max(budget, 1); genBlock(body, 1); budget = std::min(b, budget); }
+		vars.resize(nvars); ivars.resize(nivars);
+		depth--;
+	}
+	void genChainPattern(std::vector<Stmt> &out) {
+		chainPending = false;
+		std::vector<Stmt> *dst = &out; Stmt en; bool inEn = rng.chance(1, 3);
+		size_t nvars = vars.size(), nivars = ivars.size();
+		if (inEn) { en.k = ST_ENIF; en.e = genCond(nullptr); depth++; if (depth < 64) levelKind[depth] = 'e'; dst = &en.body; }
+		int chains = (int)rng.range(1, 2);
+		for (int c = 0; c < chains; c++) {
+			Stmt s; s.k = ST_IF; s.e = genCond(nullptr); genScopeBody(s.body, rng.chance(3, 4)); dst->push_back(s); budget--;
+			int arms = (int)rng.below(5);            // 0..4 ELSEIF / ELSE IF arms
+			char uniform = rng.chance(2, 3) ? (rng.chance(1, 2) ? 'I' : '2') : 0;
+			const Expr *prev = &s.e; std::deque<Expr> keep;
+			for (int a = 0; a < arms; a++) {
+				Stmt e; e.k = uniform ? (uniform == 'I' ? ST_ELSEIF : ST_ELSEIF2) : (rng.chance(1, 2) ? ST_ELSEIF : ST_ELSEIF2);
+				e.e = genCond(prev); keep.push_back(e.e); prev = &keep.back();
+				genScopeBody(e.body, rng.chance(1, 3)); dst->push_back(e); budget--;
+			}
+			if (rng.chance(1, 2)) { Stmt e; e.k = ST_ELSE; genScopeBody(e.body, rng.chance(1, 3)); dst->push_back(e); budget--; }
+			if (rng.chance(1, 2)) {                  // an IF directly after the closed chain, sometimes with its own ELSE
+				Stmt g; g.k = ST_IF; g.e = genCond(nullptr); genScopeBody(g.body, false); dst->push_back(g); budget--;
+				if (rng.chance(1, 2)) { Stmt e; e.k = ST_ELSE; genScopeBody(e.body, false); dst->push_back(e); budget--; }
+			}
+		}
+		if (inEn) { vars.resize(nvars); ivars.resize(nivars); depth--; out.push_back(en); budget--; }
+	}
 
 	// ---- pattern seed: enable scopes ----------------------------------------------------------------------------------------------
 	// reg() and mem[a] = d take EnableScope::get()->getFullEnableCondition() as (write) enable; every ENIF and every conditional scope
@@ -437,6 +484,7 @@ struct Gen {
 			if (aliasPending && rng.chance(1, 4)) { genAliasPattern(out); n--; continue; }
 			if (intPending && rng.chance(1, 4)) { genIntPattern(out); n--; continue; }
 			if (enPending && rng.chance(1, 4)) { genEnPattern(out); n--; continue; }
+			if (chainPending && rng.chance(1, 4)) { genChainPattern(out); n--; continue; }
 			if (enProgram && rng.chance(1, 25)) { out.push_back(genClocked()); n--; continue; }
 			if (enProgram && depth < maxDepth && rng.chance(1, 20)) {   // an enable scope around ordinary statements
 				Stmt s; s.k = ST_ENIF; s.e = genCond(nullptr); depth++; if (depth < 64) levelKind[depth] = 'e'; genBlock(s.body, (int)rng.range(1, 3)); depth--; out.push_back(s); budget--; n--; continue;
@@ -482,7 +530,7 @@ struct Gen {
 				auto body = [&](Stmt &st) { depth++; if (depth < 64) levelKind[depth] = 'c'; genBlock(st.body, (int)rng.range(1, 3)); depth--; };
 				body(s); out.push_back(s);
 				if (rng.chance(3, 5)) {
-					int arms = (int)rng.below(3);
+					int arms = rng.chance(1, 6) ? (int)rng.range(3, 4) : (int)rng.below(3);
 					const Expr *prev = &first;
 					std::deque<Expr> keep;
 					for (int a = 0; a < arms && budget > 0; a++) {
@@ -497,6 +545,7 @@ struct Gen {
 		if (depth == 0 && aliasPending) genAliasPattern(out);
 		if (depth == 0 && intPending) genIntPattern(out);
 		if (depth == 0 && enPending) genEnPattern(out);
+		if (depth == 0 && chainPending) genChainPattern(out);
 		{ // static widths survive the block (m_width of an outer variable grown inside stays grown); only the block's own variables go
 			ivars.resize(nivars); }
 		vars.resize(nvars);
@@ -518,6 +567,8 @@ static Program genProgram(Rng &rng, int maxStmts, int maxDepth, bool malformed) 
 	p.aliasPattern = g.aliasPending = rng.chance(1, 4);
 	p.intPattern = g.intPending = rng.chance(1, 4);
 	p.enPattern = g.enPending = g.enProgram = rng.chance(1, 4);
+	p.chainPattern = g.chainPending = rng.chance(1, 4);
+	p.useMacros = rng.chance(1, 2);
 	g.genBlock(p.stmts, 1000);
 	return p;
 }
@@ -530,6 +581,7 @@ struct IValue { std::unique_ptr<UInt> u; std::unique_ptr<SInt> s; };
 struct Exec {
 	std::vector<Value> vars;     // live frontend objects, declaration order
 	std::vector<IValue> ivars;   // width-less, policy-carrying vectors (own index space)
+	bool useMacros = false;      // IF / ELSE / ELSEIF through the real macros of ConditionalScope.h
 	std::vector<Bit> obs;        // per reg / memory write statement: the signal driving the ENABLE / wrEnable input ('1' if unconnected)
 	void observe(hlim::NodePort p) { if (p.node) obs.emplace_back(SignalReadPort(p)); else obs.emplace_back('1'); }
 	IValue &ivar(int i) { if (i < 0 || i >= (int)ivars.size()) throw std::runtime_error("unknown integer variable"); return ivars[i]; }
@@ -634,11 +686,69 @@ struct Exec {
 		}
 	}
 
+
+	// ---- an else-chain executed through the REAL macros IF / ELSE / ELSEIF (and `ELSE IF`) of frontend/ConditionalScope.h ------------
+	// a[0] = the IF, a[1..n] = ELSEIF / ELSE IF arms, el = the final ELSE or nullptr. Chains whose arms are all of one kind (up to 4) are
+	// written out as one C++ if/else statement sequence exactly as a user writes them; chains with mixed arm kinds are written arm by arm,
+	// each arm's macro behind an `if (true) {}` (the macros start with `else`; that else branch is dead in either form).
+#define C05_C(i) evalB(a[i]->e)
+#define C05_B(i) block(a[i]->body)
+#define C05_EI(i) ELSEIF (C05_C(i)) C05_B(i);
+#define C05_E2(i) ELSE IF (C05_C(i)) C05_B(i);
+	void chainMacros(const std::vector<const Stmt *> &a, const Stmt *el) {
+		size_t n = a.size() - 1;
+		bool allEI = true, allE2 = true;
+		for (size_t i = 1; i <= n; i++) { if (a[i]->k != ST_ELSEIF) allEI = false; if (a[i]->k != ST_ELSEIF2) allE2 = false; }
+		if (n <= 4 && (allEI || allE2)) {
+			int shape = (int)n * 4 + (allEI && n ? 0 : 2) + (el ? 1 : 0);
+			switch (shape) {
+				case 0 * 4 + 0: case 0 * 4 + 2: IF (C05_C(0)) C05_B(0); return;
+				case 0 * 4 + 1: case 0 * 4 + 3: IF (C05_C(0)) C05_B(0); ELSE block(el->body); return;
+				case 1 * 4 + 0: IF (C05_C(0)) C05_B(0); C05_EI(1) return;
+				case 1 * 4 + 1: IF (C05_C(0)) C05_B(0); C05_EI(1) ELSE block(el->body); return;
+				case 2 * 4 + 0: IF (C05_C(0)) C05_B(0); C05_EI(1) C05_EI(2) return;
+				case 2 * 4 + 1: IF (C05_C(0)) C05_B(0); C05_EI(1) C05_EI(2) ELSE block(el->body); return;
+				case 3 * 4 + 0: IF (C05_C(0)) C05_B(0); C05_EI(1) C05_EI(2) C05_EI(3) return;
+				case 3 * 4 + 1: IF (C05_C(0)) C05_B(0); C05_EI(1) C05_EI(2) C05_EI(3) ELSE block(el->body); return;
+				case 4 * 4 + 0: IF (C05_C(0)) C05_B(0); C05_EI(1) C05_EI(2) C05_EI(3) C05_EI(4) return;
+				case 4 * 4 + 1: IF (C05_C(0)) C05_B(0); C05_EI(1) C05_EI(2) C05_EI(3) C05_EI(4) ELSE block(el->body); return;
+				case 1 * 4 + 2: IF (C05_C(0)) C05_B(0); C05_E2(1) return;
+				case 1 * 4 + 3: IF (C05_C(0)) C05_B(0); C05_E2(1) ELSE block(el->body); return;
+				case 2 * 4 + 2: IF (C05_C(0)) C05_B(0); C05_E2(1) C05_E2(2) return;
+				case 2 * 4 + 3: IF (C05_C(0)) C05_B(0); C05_E2(1) C05_E2(2) ELSE block(el->body); return;
+				case 3 * 4 + 2: IF (C05_C(0)) C05_B(0); C05_E2(1) C05_E2(2) C05_E2(3) return;
+				case 3 * 4 + 3: IF (C05_C(0)) C05_B(0); C05_E2(1) C05_E2(2) C05_E2(3) ELSE block(el->body); return;
+				case 4 * 4 + 2: IF (C05_C(0)) C05_B(0); C05_E2(1) C05_E2(2) C05_E2(3) C05_E2(4) return;
+				case 4 * 4 + 3: IF (C05_C(0)) C05_B(0); C05_E2(1) C05_E2(2) C05_E2(3) C05_E2(4) ELSE block(el->body); return;
+			}
+		}
+		IF (C05_C(0)) C05_B(0);
+		for (size_t i = 1; i <= n; i++) {
+			if (a[i]->k == ST_ELSEIF) { if (true) {} C05_EI(i) }
+			else { if (true) {} C05_E2(i) }
+		}
+		if (el) { if (true) {} ELSE block(el->body); }
+	}
+#undef C05_C
+#undef C05_B
+#undef C05_EI
+#undef C05_E2
+
 	void block(const std::vector<Stmt> &ss, bool topLevel = false) {
 		size_t nvars = topLevel ? (size_t)-1 : vars.size();   // top level variables stay alive: their final values are the observed outputs
 		struct Restore { std::vector<Value> &v; size_t n; ~Restore() { while (v.size() > n) v.pop_back(); } } restore{vars, nvars}; // locals die at the end of the block
 		struct RestoreI { std::vector<IValue> &v; size_t n; ~RestoreI() { while (v.size() > n) v.pop_back(); } } restoreI{ivars, topLevel ? (size_t)-1 : ivars.size()};
-		for (const Stmt &s : ss) {
+		for (size_t si = 0; si < ss.size(); si++) {
+			const Stmt &s = ss[si];
+			if (useMacros && s.k == ST_IF) {
+				// the whole chain that starts here goes through the real macros
+				std::vector<const Stmt *> a{&s}; const Stmt *el = nullptr; size_t j = si + 1;
+				while (j < ss.size() && (ss[j].k == ST_ELSEIF || ss[j].k == ST_ELSEIF2)) a.push_back(&ss[j++]);
+				if (j < ss.size() && ss[j].k == ST_ELSE) el = &ss[j++];
+				chainMacros(a, el);
+				si = j - 1;
+				continue;
+			}
 			switch (s.k) {
 				case ST_DECL: {
 					Value v;
@@ -758,7 +868,7 @@ static bool hasClocked(const std::vector<Stmt> &ss) { for (auto &s : ss) if (s.k
 static bool hasDefault(const std::vector<Stmt> &ss) { for (auto &s : ss) if (s.k == ST_DEFAULT || hasDefault(s.body)) return true; return false; }
 
 static void runCase(std::ostream &o, const std::string &id, const Program &p, Rng &vrng, int exhBits, int nRandom) {
-	o << "case " << id << (p.aliasPattern ? " alias" : "") << (p.intPattern ? " intlit" : "") << (p.enPattern ? " enable" : "") << "\n";
+	o << "case " << id << (p.aliasPattern ? " alias" : "") << (p.intPattern ? " intlit" : "") << (p.enPattern ? " enable" : "") << (p.chainPattern ? " chains" : "") << (p.useMacros ? " macros" : "") << "\n";
 	o << "ins"; for (auto &t : p.ins) o << ' ' << tyStr(t); o << '\n';
 	printStmts(o, p.stmts);
 	o << "endprog\n";
@@ -766,7 +876,7 @@ static void runCase(std::ostream &o, const std::string &id, const Program &p, Rn
 		DesignScope design;
 		std::optional<Clock> clk; std::optional<ClockScope> clkScope;      // reg() and memory ports need a clock
 		if (hasClocked(p.stmts)) { clk.emplace(ClockConfig{ .absoluteFrequency = 1'000'000 }); clkScope.emplace(*clk); }
-		Exec ex;
+		Exec ex; ex.useMacros = p.useMacros;
 		std::vector<hlim::Node_Pin *> inPins;
 		for (size_t i = 0; i < p.ins.size(); i++) {
 			Value v;
@@ -856,7 +966,8 @@ int main(int argc, char **argv) {
 			Tok tk = tokenize(line);
 			if (tk.next() != "case") continue;
 			std::string id = tk.next();
-			Program p; std::getline(in, line); Tok t2 = tokenize(line); t2.next(); while (t2.i < t2.t.size()) p.ins.push_back(parseTy(t2.next()));
+			Program p; while (tk.i < tk.t.size()) { std::string m = tk.next(); if (m == "macros") p.useMacros = true; if (m == "alias") p.aliasPattern = true; if (m == "intlit") p.intPattern = true; if (m == "enable") p.enPattern = true; if (m == "chains") p.chainPattern = true; }
+			std::getline(in, line); Tok t2 = tokenize(line); t2.next(); while (t2.i < t2.t.size()) p.ins.push_back(parseTy(t2.next()));
 			p.stmts = parseStmts(in);
 			Rng vr(12345);
 			runCase(o, id, p, vr, exhBits, 192);
